@@ -6,6 +6,7 @@ package forwarder
 // C03: CONNECT tunnels are byte-transparent including early data and half-close, per direction.
 //
 //vf:assume C03: a CONNECT through the real connection loop to a scripted target connection; the client sends 0..4 (quick) / 0..8 (thorough) symbolic payload bytes in the same segment as the request head, the target sends 0..4/0..8 symbolic bytes; both sides then half-close; reads deliver 1 byte or everything at a time
+//vf:assume C03: read-header-timeout unset or 1 minute, idle and whole-request read timeouts unset (the defaults): with a whole-request read timeout configured its deadline stays armed by that option's definition, which is outside
 //vf:assume C03: the two copy directions run one after the other (single schedule); simultaneous progress, FIN ordering on real sockets, the forced close after the grace period, SOCKS5 and TLS-terminating variants are outside
 
 import (
@@ -16,6 +17,7 @@ import (
 	"net"
 	"net/http"
 	"net/url"
+	"time"
 
 	"github.com/saucelabs/forwarder/internal/martian"
 	"github.com/saucelabs/forwarder/internal/vfrt"
@@ -43,6 +45,7 @@ func vfH_C03_tunnel() {
 		dialed = addr
 		return target, nil
 	}
+	hp.proxy.ReadHeaderTimeout = time.Duration(vfrt.Choice("read-header-timeout-configured", 2)) * time.Minute
 	client := martian.NewVfConn(append([]byte("CONNECT example.com:443 HTTP/1.1\r\nHost: example.com:443\r\n\r\n"), up...))
 	if vfrt.Choice("one-byte-reads", 2) == 1 {
 		client.Chunk, target.Chunk = 1, 1
@@ -75,6 +78,9 @@ func vfH_C03_tunnel() {
 	vfrt.Assert(client.WriteClosed == 1 && client.OutAtCloseWrite == client.Out.Len(), "tunnel/client-sees-end-of-stream-after-the-last-byte")
 	// when both directions are finished both sockets are closed
 	vfrt.Assert(client.Closed >= 1 && target.Closed >= 1, "tunnel/both-sockets-closed")
+	// bytes written at any later time are delivered: no request-phase read deadline stays armed on the client socket
+	dl := client.ReadDeadlines
+	vfrt.Assert(len(dl) > 0 && dl[len(dl)-1].IsZero(), "tunnel/no-read-deadline-armed-on-the-client-socket-while-tunnelling")
 }
 
 //vf:harness property=C03 nopanic reach=upstream-tunnel,upstream-early-server-data steps=8000000
@@ -160,6 +166,7 @@ func vfH_C03_upgrade() {
 		return &http.Response{StatusCode: 101, Status: "101 Switching Protocols", ProtoMajor: 1, ProtoMinor: 1,
 			Header: http.Header{"Connection": {"Upgrade"}, "Upgrade": {"websocket"}}, Body: &vfRWCBody{ReadWriteCloser: target}, Request: req}, nil
 	}
+	hp.proxy.ReadHeaderTimeout = time.Duration(vfrt.Choice("read-header-timeout-configured", 2)) * time.Minute
 	client := martian.NewVfConn(append([]byte("GET http://example.com/ws HTTP/1.1\r\nHost: example.com\r\nConnection: Upgrade\r\nUpgrade: websocket\r\n\r\n"), up...))
 	vfrt.Reach("upgrade-tunnel")
 	martian.VfServeConn(hp.proxy, client)
@@ -177,4 +184,6 @@ func vfH_C03_upgrade() {
 	vfrt.Assert(bytes.Equal(got, down), "upgrade/upstream-bytes-reach-client-exactly-once-in-order")
 	vfrt.Assert(target.WriteClosed == 1 && client.WriteClosed == 1, "upgrade/end-of-stream-propagated-both-ways")
 	vfrt.Assert(client.Closed >= 1, "upgrade/client-socket-closed-when-done")
+	dl := client.ReadDeadlines
+	vfrt.Assert(len(dl) > 0 && dl[len(dl)-1].IsZero(), "upgrade/no-read-deadline-armed-on-the-client-socket-while-tunnelling")
 }
